@@ -91,17 +91,17 @@ PLAN = {
     "C16": dict(
         engine="vmpi", technique="stateless exploration with state hashing of ALL interleavings of the real MPIMaster/MPIWorker/mpi_skel over a virtual MPI (every visible MPI call a scheduling point, one forked child per execution); per-execution oracle exactly-once / truthful map / all ranks return / no deadlock",
         level_text="for every configuration J<=3(4) jobs x P<=3(4) ranks x R<=3 rounds x eager/rendezvous sends x equal/distinct complexities, both the boss-works-too skeleton and the dedicated-master loop: every interleaving of rank steps (no deviation bound; state-hashed) terminates, runs each job exactly once and returns the same truthful job->rank map on all ranks",
-        runs=[("rel", "vx", "C16", 4, [])], deadline_quick=900, deadline_thorough=3300,
+        runs=[("rel", "vx", "C16", 4, [])], deadline_quick=900, deadline_thorough=3300, conformance="rel",
         rule="states = distinct (per-rank observation history, pending operation, in-flight payload) tuples; transitions = enabled alternatives expanded; evaluations = executions run to completion or to an already visited state; non-trivial = distinct job->rank assignments observed in configurations where timing decides the assignment",
-        explanation="the explored object is the real dispatcher code; the MPI underneath is a model (engines/vmpi) whose semantics are stated in DESIGN.md section 6; traces_validated_against_impl counts executions of the real code",
+        explanation="the explored object is the real dispatcher code; the MPI underneath is a model (engines/vmpi) whose semantics are stated in DESIGN.md section 6. traces_validated_against_impl counts runs of the same dispatcher loops on the REAL MPI (mpiexec -np 2,3, randomised job durations) whose outcome satisfied the oracle and was found in the explored outcome set of the same configuration; a real outcome outside the explored set is an engine error",
         assumptions=["virtual MPI: non-overtaking point-to-point matching, eager or synchronous sends, MPI_Cancel withdraws an unmatched receive immediately, Boost 1.83 request semantics (static libboost_mpi.a)", "failed polls have no side effect (checked by construction: they leave no trace in the rank's history and the rank's code does not branch on them other than by looping)"]),
     "C06": dict(
         engine="vmpi", technique="stateless exploration with state hashing and checkpoint digests of the interleavings of P rank-threads running the real pomerol workflow over a virtual MPI and a virtual OpenMP team; single-rank single-thread run as oracle; deviation bounding where full expansion is too large",
         level_text="P in 1..4 ranks (thorough up to 16 at bound 0) x three models x {distributed diagonalisation, TwoParticleGF::compute, container computeAll split/unsplit, term purging on/off} x component counts that P does and does not divide: all interleavings for the diagonalisation with P<=3, deviation bound 0..2 elsewhere; every execution terminates (no deadlock / collective mismatch / exception) and every rank's eigen-data, G, chi from terms and the tables it is entitled to equal the single-rank run; OpenMP team sizes 2..16 x 3 chunk orders",
-        runs=[("rel", "vx", "C06", 4, [])], deadline_quick=900, deadline_thorough=3300,
+        runs=[("rel", "vx", "C06", 4, []), ("tsan", "vx", "C06T", 4, [])], deadline_quick=900, deadline_thorough=3300, conformance="rel", conformance_script="conformance06.py", tsan_is_violation=True,
         rule="as C16; checkpoint digests (over all data members a rank holds) replace histories after each distributed step so that schedules leaving identical data merge; non-trivial = configurations with more than one rank or thread",
-        explanation="real pomerol code on every rank; MPI and the OpenMP runtime are models (engines/vmpi); traces_validated_against_impl counts executions of the real code",
-        assumptions=["virtual MPI as for C16; boost::mpi::reduce of complex values is the point-to-point tree of the installed Boost 1.83", "the OpenMP loop body has no synchronisation: team members' chunks are run one after another in 3 orders; data races inside the loop body are not visible to this serialising runtime (a free-running ThreadSanitizer pass is listed as not done in DESIGN.md)"]),
+        explanation="real pomerol code on every rank; MPI and the OpenMP runtime are models (engines/vmpi). traces_validated_against_impl counts runs of the same per-rank workflow on the REAL Open MPI (mpiexec -np 2,3,4; one with 4 real OpenMP threads) that terminated and in which every rank reported the values of the single-rank run; a real run that hangs or differs is a violation with its command line as replay",
+        assumptions=["virtual MPI as for C16; boost::mpi::reduce of complex values is the point-to-point tree of the installed Boost 1.83", "the OpenMP loop body has no synchronisation: team members' chunks are run one after another in 3 orders; data races inside the loop body are looked for separately by running the same bodies on 2/4/16 really concurrent threads of a ThreadSanitizer build (a race that needs a particular timing may still escape that pass)"]),
     "C17": dict(
         engine="modelx", technique="sanitizers (ASan+UBSan, recover mode) as oracle over the exhaustive enumerations of the other checks plus a dedicated sweep of the anchored code (ignored symmetries, empty frequency lists, 1x1 blocks, boundary state labels); every report following a case marker is a violation",
         level_text="every case of the dedicated sweep and of the quick enumerations of C01, C02, C05, C10, C13, C14, C18, C20 is executed on a build instrumented with AddressSanitizer and UndefinedBehaviorSanitizer, and the MPI workflow bodies of C06 on the same build under the default schedule; any report is a violation attributed to the case that was executing",
